@@ -781,6 +781,10 @@ def run(rep, tier, seed):
                 targets = range(ne)
             else:
                 targets = [i for i in range(ne) if i % len(PROFILES) == pi]
+            if thorough and focus == "params":
+                # the shallower edges of this graph are the graph of "params-all-kinds" (every edge under every kind)
+                deepest = max(e["lvl"] for e in g.edges)
+                targets = [i for i in targets if g.edges[i]["lvl"] == deepest]
             st, divs = cover(g, adapters[prof], targets)
             for k in tot:
                 tot[k] += st[k]
